@@ -71,6 +71,9 @@ pub fn classify_common<S: Subject>(sim: &Sim<S>, stats: &mut Stats) {
     if actors_with_dots(&sim.metas) >= 3 {
         stats.class("3+ actors issued dots");
     }
+    if sim.metas.iter().any(|m| m.call.contains("EARLIER")) {
+        stats.class("remove built from a stale (earlier) read context");
+    }
     if pending_remove_somewhere(sim) {
         stats.class("ends with a pending (overtaking) remove somewhere");
     }
